@@ -241,6 +241,8 @@ def owned(prop, ev, clauses):
         return []
     if o == "*":
         return list(clauses)
+    if isinstance(o, dict):      # {"except": [...]}: every clause of the action but the listed extension clauses
+        return [c for c in clauses if c not in o["except"]]
     return [c for c in clauses if c in o]
 
 
